@@ -392,6 +392,15 @@ class Build:
             self.text += '.zip(%s)' % txt
             self.gen = m_zip(self.gen, oth)
             self.t = 'seq'
+        elif k == 'zipLeft':
+            # a finite list first, the pipeline second: the list ends first
+            # and nothing more is asked of the pipeline
+            if t != 'int':
+                raise ValueError('type')
+            self.text = '[%s].zip(%s)' % (', '.join(map(str, op[1])),
+                                          self.text)
+            self.gen = m_zip(list(op[1]), self.gen)
+            self.t = 'seq'
         elif k == 'accumulate':
             if t != 'int':
                 raise ValueError('type')
@@ -517,7 +526,7 @@ def gen_op(w, t):
     int_ops = ['where', 'where', 'select', 'select', 'selectMany', 'skip',
                'take', 'takeWhile', 'skipWhile', 'append', 'concat',
                'concatLeft', 'distinct', 'distinctBy', 'enumerate', 'zip',
-               'accumulate', 'insert', 'delete', 'replace', 'slice',
+               'zipLeft', 'accumulate', 'insert', 'delete', 'replace', 'slice',
                'memorize', 'join']
     seq_ops = ['where', 'select', 'selectMany', 'skip', 'take', 'takeWhile',
                'skipWhile', 'append', 'distinctBy', 'insert', 'delete',
@@ -535,7 +544,7 @@ def gen_op(w, t):
         return [k, [w.randrange(50) for _ in range(w.choice([1, 2]))]]
     if k in ('concat', 'zip'):
         return [k, gen_other(w)]
-    if k == 'concatLeft':
+    if k in ('concatLeft', 'zipLeft'):
         return [k, [w.randrange(50) for _ in range(w.choice([0, 1, 2, 3]))]]
     if k == 'distinct':
         return [k]
@@ -563,7 +572,7 @@ def gen_op(w, t):
 
 
 def type_after(op, t):
-    if op[0] in ('enumerate', 'zip', 'slice'):
+    if op[0] in ('enumerate', 'zip', 'zipLeft', 'slice'):
         return 'seq'
     if op[0] in ('select', 'selectMany', 'attr'):
         return 'int'
